@@ -85,7 +85,7 @@ def lemma_vcs(needed=None):
     out = []
     names = list(registry.LEMMAS)
     for i, (name, l) in enumerate(registry.LEMMAS.items()):
-        if l.lean:
+        if l.lean or l.assumed:
             continue
         earlier = set(names[:i])
         for u in l.uses:
@@ -188,7 +188,7 @@ def verify_functions(prop, rep, extra_requires=None, only=None):
             c.requires = saved + list(extra_requires[key])
         try:
             try:
-                seg = repo.segment(key)
+                seg = repo.segment(key) if c.body is None else dict(path="<ghost client code in the sidecar>", qualname=key, first_line=0, last_line=0, sha256=hashlib.sha256(c.body.encode()).hexdigest())
             except KeyError as ex:
                 rep.demoted.append({"function": key, "reason": "definition not found: %s" % ex})
                 continue
@@ -347,6 +347,8 @@ def vacuity_vcs(prop, rep):
         E._reset_path([])
         E.pending = []
         from pyvc.engine import Frame
+        if c.body is not None:
+            continue
         try:
             node, mod, clsnode = repo.find(key)
         except KeyError:
@@ -375,7 +377,7 @@ def crosscheck(prop, mods, rep, seed, n):
     for key, c in contracts_of(prop):
         if c.trusted and not getattr(c, "runtime_check", False):
             continue
-        if getattr(c, "no_runtime", False):
+        if getattr(c, "no_runtime", False) or c.body is not None:
             continue
         ins = gen.inputs_for(c, seed, n)
         items.append({"key": key, "inputs": [{k: enc(v) for k, v in a.items()} for a in ins]})
@@ -396,7 +398,7 @@ def crosscheck(prop, mods, rep, seed, n):
             rep.crosscheck.setdefault("harness_errors", []).append({"key": r["key"], "error": r.get("error", "")[-300:]})
     rep.crosscheck["executed_per_function"] = per
     for key, c in contracts_of(prop):
-        if per.get(key, 0) == 0 and not c.trusted and not getattr(c, "no_runtime", False):
+        if per.get(key, 0) == 0 and not c.trusted and not getattr(c, "no_runtime", False) and c.body is None:
             rep.crosscheck.setdefault("never_executed", []).append(key)
     return res
 
